@@ -5,6 +5,7 @@ mod segment;
 mod writing_messages;
 
 pub use indexes::Index;
+pub use indexes::INDEX_SIZE;
 pub use segment::Segment;
 
 pub const LOG_EXTENSION: &str = "log";
